@@ -21,6 +21,7 @@ import (
 func init() { register("c20same", runC20Same) }
 
 type jSameCase struct {
+	ShiftS  int64    `json:"shift_s"` // all timestamps moved by this many seconds (negative: before 1970)
 	Table   jTable   `json:"table"`
 	Points  []jPoint `json:"points"`
 	Flush   bool     `json:"flush"`
@@ -33,6 +34,9 @@ func genSameCase(r *rand.Rand) *jSameCase {
 	c.Table = genTable(r, map[string]bool{})
 	c.Points = genDBPoints(r, &c.Table, 20+r.Intn(30))
 	c.Flush = r.Intn(2) == 0
+	if r.Intn(3) == 0 {
+		c.ShiftS = -(baseSec + int64(r.Intn(4000))) // around and before the unix epoch
+	}
 	t := &c.Table
 	res := time.Duration(t.ResNS)
 	for i := 0; i < 8; i++ {
@@ -72,10 +76,11 @@ func genSameCase(r *rand.Rand) *jSameCase {
 }
 
 func runSameCase(e *Env, c *jSameCase) error {
+	e.Running(c)
 	dir := tempDir()
 	defer rmDir(dir)
 	t := &c.Table
-	db, err := openDB(dir, t, "t")
+	db, err := openDB(dir+"/served", t, "t")
 	if err != nil {
 		return err
 	}
@@ -92,25 +97,60 @@ func runSameCase(e *Env, c *jSameCase) error {
 		return err
 	}
 	defer client.Close()
+	// the same points go into the served database through the RPC inserter and into a second one in-process
+	ref, err := openDB(dir+"/ref", t, "t")
+	if err != nil {
+		return err
+	}
+	defer ref.Close()
+	ictx, icancel := context.WithTimeout(context.Background(), 30*time.Second)
+	defer icancel()
+	ins, err := client.NewInserter(ictx, "inbound")
+	if err != nil {
+		return err
+	}
 	for i := range c.Points {
 		p := &c.Points[i]
-		if err := db.Insert("inbound", p.TS.T(), p.goDims(), p.goVals()); err != nil {
+		ts := p.TS.T().Add(time.Duration(c.ShiftS) * time.Second)
+		if err := ref.Insert("inbound", ts, p.goDims(), p.goVals()); err != nil {
 			return err
 		}
-		if c.Flush && i == len(c.Points)/2 {
-			if err := waitCaughtUp(db, "t", 0); err != nil {
+		vals := p.goVals()
+		if len(p.Dims) == 0 || len(vals) == 0 {
+			// the RPC server rejects points without dims or vals
+			if err := db.Insert("inbound", ts, p.goDims(), vals); err != nil {
 				return err
 			}
-			db.FlushAll()
+			continue
 		}
+		if err := ins.Insert(ts, p.goDims(), func(cb func(string, interface{})) {
+			for k, v := range vals {
+				cb(k, v)
+			}
+		}); err != nil {
+			return err
+		}
+	}
+	if _, err := ins.Close(); err != nil {
+		return err
+	}
+	if c.Flush {
+		if err := waitCaughtUp(db, "t", 0); err != nil {
+			return err
+		}
+		db.FlushAll()
 	}
 	if err := waitCaughtUp(db, "t", 0); err != nil {
 		return err
 	}
+	if err := waitCaughtUp(ref, "t", 0); err != nil {
+		return err
+	}
+	// (one clock for both: under VirtualTime it is the newest accepted timestamp, which is the same set of points)
 	ctx, cancel := context.WithTimeout(context.Background(), 30*time.Second)
 	defer cancel()
 	for _, q := range c.Queries {
-		fa, ra, ea := runQuery(db, q, true)
+		fa, ra, ea := runQuery(ref, q, true)
 		var fb []string
 		var rb []obsRow
 		md, iterate, eb := client.Query(ctx, q, true)
